@@ -207,6 +207,8 @@ def run_messages(sh, lab, n):
         styles.add(lab.style(k, *v))
     ansi = lab.AnsiFormatter(styles, True)
     plain = lab.PlainFormatter(styles)
+    # formatters over a style set that defines only one tag of its own: whatever else the formatters know, they know alike
+    small = lab.StyleSet([lab.style("s1", *extra["s1"])])
     kept = 0
     for i in range(n):
         ast = gen_ast(ch, 3, extra_codes)
@@ -231,6 +233,32 @@ def run_messages(sh, lab, n):
             sh.violate("format-raises", case, "formatting balanced markup raised %r" % (e,))
             continue
         sh.count("messages")
+        if i % 3 == 0:
+            # the same agreement for formatters over a style set that defines only one tag of its own (messages over that
+            # tag and the four names every formatter knows; new formatters per message)
+            parts = []
+            for _ in range(ch.randint(1, 4)):
+                t = ch.choice(TEXTS[:12])
+                if ch.flip(0.6):
+                    tag = ch.choice(["info", "comment", "question", "error", "s1"])
+                    inner = ch.choice(TEXTS[:12])
+                    if ch.flip(0.3):
+                        tag2 = ch.choice(["info", "error", "s1"])
+                        inner = "%s<%s>%s</%s>" % (inner, tag2, ch.choice(TEXTS[:6]), tag2)
+                    t = "<%s>%s</%s>" % (tag, inner, tag)
+                parts.append(t)
+            m2 = "".join(parts)
+            if [t.group(0) for t in TAG_RE.finditer(m2)] == re.findall(r"</?(?:info|comment|question|error|s1)>", m2):
+                a2, p2 = lab.AnsiFormatter(small, True), lab.PlainFormatter(small)
+                try:
+                    four = [strip_sgr(a2.format(m2)), p2.format(m2), a2.remove_format(m2), p2.remove_format(m2)]
+                except Exception as e:
+                    four = None
+                    sh.violate("format-raises", {"kind": "message", "markup": m2, "style_set": "one custom style"}, "formatting with a one-style set raised %r" % (e,))
+                sh.count("one_style_set_messages")
+                if four and len(set(four)) != 1:
+                    sh.violate("same-text", {"kind": "message", "markup": m2, "style_set": "one custom style"},
+                               "with a style set of one custom style the renderings disagree: decorated-stripped %r, plain %r, remove_format %r / %r" % tuple(x[:60] for x in four))
         bad = [k for k, v in results.items() if v != p]
         if bad:
             key = None
@@ -598,6 +626,47 @@ def run_shared_output_scopes(sh, lab):
                     sh.violate("indent-raises", case, "raised %r" % (e,))
 
 
+def run_application_styles(sh, lab):
+    """Styles added to the application configuration reach both outputs of the I/O built for a run."""
+    from clikit.args import ArgvArgs
+    from clikit.config.default_application_config import DefaultApplicationConfig
+    from clikit.console_application import ConsoleApplication
+    from clikit.handler.callback_handler import CallbackHandler
+    from clikit.io.input_stream import StringInputStream
+
+    def handler(args, io):
+        io.write_line("<warn>W</warn> and <info>I</info>")
+        io.error_line("<warn>W</warn> and <info>I</info>")
+        return 0
+
+    for claims in ((False, False), (True, True), (True, False), (False, True)):
+        for switch in ([], ["--ansi"], ["--no-ansi"]):
+            cfg = DefaultApplicationConfig("app", "1.0")
+            cfg.set_terminate_after_run(False)
+            cfg.add_style(lab.style("warn", "yellow", None, ("bold",)))
+            cfg.create_command("run").set_handler(CallbackHandler(handler))
+            so, se = lab.RecStream(claims[0]), lab.RecStream(claims[1])
+            case = {"kind": "application-styles", "streams_claim_ansi": list(claims), "switch": switch}
+            sh.case(("app-styles", claims, tuple(switch)), True)
+            try:
+                status = ConsoleApplication(cfg).run(ArgvArgs(["prog", "run"] + switch), StringInputStream(""), so, se)
+            except Exception as e:
+                sh.violate("format-raises", case, "run raised %r" % (e,))
+                continue
+            sh.count("application_style_runs")
+            for which, text, claim in (("standard", so.fetch(), claims[0]), ("error", se.fetch(), claims[1])):
+                decorated = switch == ["--ansi"] or (claim and switch != ["--no-ansi"])
+                if strip_sgr(text) != "W and I\n":
+                    sh.violate("undecorated-output" if not decorated else "same-text", case, "status %r, %s stream shows %r, expected the text 'W and I'" % (status, which, text))
+                    continue
+                if not decorated and "\x1b" in text:
+                    sh.violate("undecorated-output", case, "%s stream is undecorated but received %r" % (which, text))
+                if decorated:
+                    runs = sgr_runs(text)
+                    if set(runs[0][1]) != {33, 1}:
+                        sh.violate("sgr-codes", case, "%s stream: the application's style 'warn' (yellow, bold) rendered with codes %s" % (which, sorted(runs[0][1])))
+
+
 def run_indent(sh, lab, depth, part):
     alphabet = [(s, n) for s in SCOPES for n in SIZES]
     k = 0
@@ -636,6 +705,7 @@ def run(sh, spec):
         run_styles(sh, lab, spec["fgs"], spec["bgs"])
     elif part == "lines":
         run_lines(sh, lab)
+        run_application_styles(sh, lab)
     else:
         run_indent(sh, lab, spec["depth"], spec["slice"])
         if spec["slice"][0] == 0:
